@@ -223,6 +223,10 @@ def run_case(case):  # noqa: C901
                     continue
                 sig = dict(v["sig"])
                 sig["tags"] = sorted({a[1][0] if isinstance(a[1], list) else a[1] for a in assignment})
+                if v["sig"].get("cause") == "int-and-float32-operands-evaluated-in-float":
+                    # the tagged variant is wrong against NumPy (to float32 precision) where the untagged one is right: the
+                    # strategy decides whether the mixed int/float32 operation is evaluated in double or in float
+                    sig = {"kind": "tag-changes-value", "cause": "int-and-float32-operands-evaluated-in-c-float"}
                 if (sig.get("where") == "loopy/target/c/codegen/expression.py:map_comparison" and sig.get("error") == "TypeError"
                         and any(s_[0] == "cmp" and any(isinstance(x, list) and x[:1] == ["py"] and isinstance(x[1], bool) for x in s_[2:])
                                 for _n, t_ in outs for s_ in T.all_subterms(t_))):
